@@ -54,3 +54,12 @@ Theorem C06_flush_publishes_the_completed_events : forall PS, (hdr_len <= payloa
   end.
 Proof. exact flush_publishes_events. Qed.
 Print Assumptions C06_flush_publishes_the_completed_events.
+
+(* the page images one successful flush writes form a chain: every image names (next pointer) the id of the image
+   written after it - so a reader that reaches the first of them reaches all of them in order *)
+From VF Require Import PQWriterHeaderProofs.
+Theorem C06_flush_writes_a_linked_chain : forall s ids s' imgs pg al, do_flush s (FOk ids) = (s', FDone imgs pg al) ->
+  forall i a b, nth_error imgs i = Some a -> nth_error imgs (Datatypes.S i) = Some b ->
+  snd (fst (fst (fst (fst a)))) = fst (fst (fst (fst (fst b)))).
+Proof. exact flush_images_linked. Qed.
+Print Assumptions C06_flush_writes_a_linked_chain.
